@@ -674,3 +674,14 @@ mutant("C15-M26", "C15", "R15j", "calibration objective evaluated without applyi
 mutant("C15-M27", "C15", "R15j", "calibration objective subtracts", CA, "_calculate_objective", "objective += weight * sum(", "objective -= weight * sum(")
 mutant("C15-M28", "C15", "R15j", "meta factor written for named populations", CA, "_update_parset", 'if pop_name.lower() == "all":', 'if pop_name.lower() != "all":')
 mutant("C15-M29", "C15", "R15j", "every adjustable receives the first proposed factor", CA, "_update_parset", "parset.pars[par_name].y_factor[pop_name] = y_factors[i]", "parset.pars[par_name].y_factor[pop_name] = y_factors[0]")
+
+# ---- R07g initial linear system
+mutant("C07-M22", "C07", "R07g", "quantities with zero setup weight used for initialisation", M, "Population.initialize_compartments", 'framework.characs.index[(framework.characs["setup weight"] > 0)', 'framework.characs.index[(framework.characs["setup weight"] >= 0)')
+mutant("C07-M23", "C07", "R07g", "sinks become unknowns of the initial system", M, "Population.initialize_compartments", "comps = [c for c in self.comps if not (isinstance(c, SourceCompartment) or isinstance(c, SinkCompartment))]", "comps = [c for c in self.comps if not isinstance(c, SourceCompartment)]")
+mutant("C07-M24", "C07", "R07g", "fraction not multiplied by its denominator", M, "Population.initialize_compartments", "                if obj.denominator is not None:", "                if obj.denominator is None:")
+mutant("C07-M25", "C07", "R07g", "member compartments entered with weight 2", M, "Population.initialize_compartments", "                    A[i, comp_indices[inc.name]] = 1.0", "                    A[i, comp_indices[inc.name]] = 2.0")
+mutant("C07-M26", "C07", "R07g", "residual without the square", M, "Population.initialize_compartments", "residual = np.sum((proposed.ravel() - b.ravel()) ** 2)", "residual = np.sum(proposed.ravel() - b.ravel())")
+mutant("C07-M27", "C07", "R07g", "solution written back shifted by one", M, "Population.initialize_compartments", "            c[0] = max(0.0, x[i])", "            c[0] = max(0.0, x[i - 1])")
+mutant("C07-M28", "C07", "R07g", "per-quantity mismatch compared without abs", M, "Population.initialize_compartments", 'if abs(proposed[i] - b[i]) > model_settings["tolerance"]:', 'if proposed[i] - b[i] > model_settings["tolerance"]:')
+mutant("C07-M29", "C07", "R07g", "right-hand side divided by the meta factor", M, "Population.initialize_compartments", "b[i] = par.interpolate(t_init, pop_name=self.name)[0] * par.y_factor[self.name] * par.meta_y_factor", "b[i] = par.interpolate(t_init, pop_name=self.name)[0] * par.y_factor[self.name] / par.meta_y_factor")
+twin("C07-T4", "C07", "residual written with the operands swapped", M, "Population.initialize_compartments", "residual = np.sum((proposed.ravel() - b.ravel()) ** 2)", "residual = np.sum((b.ravel() - proposed.ravel()) ** 2)")
